@@ -248,7 +248,7 @@ def _get_one_constant(self: fst.FST, idx: int | None, field: str, cut: bool, opt
     if fst.FST.get_option('promote', options) != 'all':
         return child
 
-    src = repr(child)
+    src = '...' if child is ... else repr(child)  # repr(Ellipsis) is the name 'Ellipsis', not the literal
 
     return fst.FST(Constant(value=child, lineno=1, col_offset=0, end_lineno=1, end_col_offset=len(src.encode())),
                    [src], None, from_=self)
@@ -264,7 +264,7 @@ def _get_one_constant_promote_true(
     if not fst.FST.get_option('promote', options):
         return child
 
-    src = repr(child)
+    src = '...' if child is ... else repr(child)  # repr(Ellipsis) is the name 'Ellipsis', not the literal
 
     return fst.FST(Constant(value=child, lineno=1, col_offset=0, end_lineno=1, end_col_offset=len(src.encode())),
                    [src], None, from_=self)
